@@ -442,6 +442,8 @@ pub fn known(prop: &str, sig: &str) -> bool {
 
 /// Is `sig` an *open* known finding of this property?
 pub fn is_known(findings: &[Finding], prop: &str, sig: &str) -> bool {
+    // an open finding covers the release and the debug-assertion build alike
+    let sig = sig.trim_end_matches("+debug-assertions");
     findings.iter().any(|f| f.property == prop && f.status == "open" && f.signature == sig)
 }
 
@@ -512,7 +514,7 @@ pub fn conclude(cfg: &Cfg, rep: &Report, meta: Meta, start: Instant) -> i32 {
     let mut known: BTreeMap<String, usize> = BTreeMap::new();
     for v in &rep.viols {
         if is_known(&findings, &cfg.prop, &v.sig) {
-            *known.entry(v.sig.clone()).or_insert(0) += 1;
+            *known.entry(v.sig.trim_end_matches("+debug-assertions").to_string()).or_insert(0) += 1;
         } else {
             new_viols.push(v.clone());
         }
